@@ -9,6 +9,7 @@ import (
 	"bytes"
 	"fmt"
 	"strings"
+	"time"
 
 	"verif/checks/cworld"
 	"verif/engine"
@@ -152,7 +153,7 @@ type caseRec struct {
 // Run is the check's entry point.
 func Run(c *engine.Ctx) {
 	c.Assume = append(c.Assume,
-		"in-memory endpoints (shim/vnet): a UDP datagram is one read, TCP is a length-prefixed stream, refusal is a dial error (TCP) or ICMP-style read error (UDP), silence is a read deadline expiring in virtual time",
+		"in-memory endpoints (shim/vnet): a UDP datagram is one read, TCP is a length-prefixed stream, refusal is a dial error (TCP) or ICMP-style read error (UDP), silence is a read deadline expiring in virtual time (the virtual clock advances to the deadline; writes and reads after a deadline has passed fail at once, as on a real connection; a read without deadline on a silent endpoint is reported)",
 		"the random server order is scripted through shim/vrand: every order is enumerated for 1-2 KDCs (and for 3 KDCs in the thorough tier)")
 	vclock.Virtual(cworld.T0)
 	w := cworld.New(cworld.DefaultOpts())
@@ -192,6 +193,8 @@ func Run(c *engine.Ctx) {
 						cl = client.NewWithPassword(cworld.User, cworld.Realm, "x", cloneConfig(cfg), client.DisablePAFXFAST(true))
 					}
 					vrand.Script(script)
+					vclock.Set(cworld.T0)
+					vnet.NoDeadlineWaits = 0
 					var rb []byte
 					var rerr error
 					pn := safeRun(func() { rb, rerr = cl.VerifSendToKDC(req, cworld.Realm) })
@@ -204,6 +207,14 @@ func Run(c *engine.Ctx) {
 					}
 					if pn != "" {
 						c.Violate("faults", "panic:sendToKDC", map[string]interface{}{"panic": pn}, rec)
+						continue
+					}
+					if vnet.NoDeadlineWaits > 0 {
+						c.Violate("faults", "waits-on-a-silent-kdc-without-a-deadline", map[string]interface{}{"reads_without_deadline": vnet.NoDeadlineWaits}, rec)
+						continue
+					}
+					if el := vclock.Now().Sub(cworld.T0); el > time.Duration(len(attempts))*30*time.Second {
+						c.Violate("faults", "unbounded-wait", map[string]interface{}{"virtual_time_spent": el.String(), "attempts": len(attempts)}, rec)
 						continue
 					}
 					if key, detail := judge(nk, limit, len(req), beh, script, rb, rerr, len(attempts)); key != "" {
